@@ -165,9 +165,47 @@ def wrappers(chk, kind, st, arr, els, rows, total, r, with_index):
         chk.count("wrapper:sindex")
 
 
+def half_defined_partitions(chk, r, tier):
+    """Dask series in which a whole partition has no finite coordinate in one dimension and the extremes of the other"""
+    import dask.dataframe as dd
+    from spatialpandas import GeoSeries
+    nan, inf = float("nan"), float("inf")
+    for k in range(6 if tier == "quick" else 40):
+        kind = ("point", "multipoint", "line")[k % 3]
+        dim = k % 2
+        size = r.choice((1, 2, 3))
+        nparts = r.choice((2, 3, 4))
+        bad_part = r.randrange(nparts)
+        els = []
+        for pi in range(nparts):
+            for _ in range(size):
+                if pi == bad_part:
+                    far = r.choice((-1, 1)) * r.randint(20, 90)
+                    pt = lambda: [r.choice((nan, inf, -inf)), far + r.randint(0, 3)] if dim == 0 else [far + r.randint(0, 3), r.choice((nan, inf, -inf))]  # noqa: E731
+                else:
+                    pt = lambda: [r.randint(-9, 9), r.randint(-9, 9)]  # noqa: E731
+                els.append(pt() if kind == "point" else pt() + pt())
+        arr = geo.make_array(kind, els, "float64")
+        rows, total = compare(chk, kind, "float64", arr, els, [])
+        rep = dict(api="DaskGeoSeries.total_bounds", kind=kind, subtype="float64", elements=els, npartitions=nparts, partition_without_finite=("x", "y")[dim])
+        try:
+            ds = dd.from_pandas(GeoSeries(arr), npartitions=nparts)
+            dt = canon_row(ds.total_bounds)
+            if dt != total:
+                chk.violation(f"DaskGeoSeries.total_bounds/{kind}/differs/partition-half-defined", dict(rep, impl=dt, model=total))
+            fr = canon_row(dd.from_pandas(GeoSeries(arr).to_frame("g").set_geometry("g"), npartitions=nparts).geometry.total_bounds) \
+                if hasattr(GeoSeries(arr).to_frame("g"), "set_geometry") else dt
+            if fr != total:
+                chk.violation(f"DaskGeoDataFrame.total_bounds/{kind}/differs/partition-half-defined", dict(rep, impl=fr, model=total))
+        except Exception as e:  # noqa: BLE001
+            chk.violation(f"DaskGeoSeries.total_bounds/{kind}/raises-{common.err_kind(e)}/partition-half-defined", dict(rep, error=repr(e)[:300]))
+        chk.count("wrapper:dask-half-defined-partition")
+
+
 def run_cases(chk, tier):
     r = common.rng(PROP)
     rounds = 6 if tier == "quick" else 40
+    half_defined_partitions(chk, r, tier)
     for kind in geo.KINDS:
         # fixed structural cases first
         fixed = [[], [None], [None, None]]
